@@ -205,4 +205,19 @@ PROPS = {
         "level_note": "partial: regexp/JSON/time engines are oracles; Go crash-freedom beyond the modelled index site is evidence from the byte-fuzz stream, not a theorem",
         "assumptions": ["filters compile and have two groups (enforced by the experiment validator)", "the collector always passes the objective metric first (non-empty list)"],
     },
+    "C20": {
+        "prop_files": ["Katib/Props/C20.lean"],
+        "n": {"quick": 2800, "thorough": 60000},
+        "rule": "every route of the UI server except the index/static ones and fetch_trial_logs (real clientset) x {user header present/absent} x RBAC script "
+                "{deny all, allow all, allow namespace a, allow namespace b} x request namespace {a, b}, served by the real handlers through httptest on a fake client holding "
+                "experiments, trials, suggestions and template ConfigMaps in two namespaces; SubjectAccessReviews are answered by the script, every API call is recorded; case k uses "
+                "route k mod #routes so all routes are covered",
+        "trusted": ["the go/ast route/handler translator (kvh extract ui)", "fake client + interceptor as API server and SubjectAccessReview oracle"],
+        "modelled": ["per route: ordered IsAuthorized calls with guard shape and data accesses with namespace expression (regenerated table Katib.Gen.uiRoutes); Katib.Ui.guardedFrom / exec / gateStatus"],
+        "level_text": "partial: C20_guarded_sound (a statically guarded handler touches only namespaces with an allowing review and nothing after 401/403) and C20_no_header_no_access for every "
+                      "event list; C20_all_routes / C20_template_routes / C20_repaired_routes_guarded by decide over the table regenerated from cmd/ui and pkg/ui on every run; dynamic tie: "
+                      "gate answers of the real handlers equal the table's, and every recorded trace is judged by the trace oracle",
+        "level_note": "partial: fetch_trial_logs is covered statically only (needs a clientset); the static skeleton abstracts control flow to top/branch/loop positions",
+        "assumptions": ["every gate's namespace expression evaluates to the request's namespace parameter (true for the generated requests)"],
+    },
 }
